@@ -19,7 +19,7 @@ from ..common import rng_for, b2j
 
 LEVEL = "exploration"
 SHARDS = {"quick": 1, "thorough": 16}
-REQUIRED = ("serialized_structures_compared", "earlier_packets_rechecked", "sequences_count_mode", "sequences_until_mode", "until_evaluations", "when_false_observed", "when_true_observed",
+REQUIRED = ("families_with_a_shared_options_table", "families_whose_element_size_uses_the_running_index", "serialized_structures_compared", "earlier_packets_rechecked", "sequences_count_mode", "sequences_until_mode", "until_evaluations", "when_false_observed", "when_true_observed",
             "optional_present", "optional_absent", "refs_followed", "selected_field", "selected_packet", "selector_missing_key_errors",
             "continuity_edges", "count_zero_or_negative", "nested_in_sequence", "values_compared_with_model")
 MIN_NONTRIVIAL = 150
@@ -280,6 +280,8 @@ def one_input(run, bench, label, raw):
                 break
         keep.append((r.pkt, mr.value, raw))
         del keep[:-4]
+        if v == "d":
+            harness.lib_pack(r.pkt)      # (the monitored variant is serialized above: both variants alternate serializing and parsing)
     run.case(key=(bench.skeleton, st, tuple(sorted(sig))), nontrivial=nontrivial or bool(sig))
 
 
@@ -293,8 +295,21 @@ def run(run):
     if run.tier == "thorough":
         profile["max_depth"] = 4
     sampled = 0
-    for bench in driver.families(run, rng, profile, VARIANTS, nfam, tag="c08"):
+    import itertools
+    from .. import predicates
+    # two targeted populations: selectors sharing one options table (serialize, then parse again with the same class), and counted
+    # sequences whose element size is the running index
+    for bench in itertools.chain(driver.families(run, rng, profile, VARIANTS, nfam, tag="c08"),
+                                 driver.families(run, rng, dict(profile, accept=predicates.shares_a_literal, min_fields=4,
+                                                                kinds={"int": 30, "data": 14, "bits": 4, "ref": 8, "sel": 42, "em": 1}),
+                                                 VARIANTS, max(10, nfam // 20), tag="c08s"),
+                                 driver.families(run, rng, dict(profile, accept=predicates.element_size_uses_running_index, p_elem_index=0.6, p_rep=0.5),
+                                                 VARIANTS, max(10, nfam // 20), tag="c08i")):
         fam = bench.fam
+        if predicates.shares_a_literal(fam):
+            run.count("families_with_a_shared_options_table")
+        if predicates.element_size_uses_running_index(fam):
+            run.count("families_whose_element_size_uses_the_running_index")
         for name, cls in bench.loaded.classes("g").items():
             monitors.instrument_controls(cls, bench.rec)
         for j in range(ninputs):
